@@ -105,20 +105,26 @@ theorem proj_post (cfg : Cfg) {l : List Ev}
     | resume c d => simp only [List.filterMap_cons, obsOf, respItem]; exact this
     | sub i => simp only [List.filterMap_cons, obsOf, respItem]; exact this
 
-theorem proj_tail (cfg : Cfg) {l : List Ev} (h : ∀ e ∈ l, e.isFinCb = true ∧ e.curOk = true) :
-    proj cfg l = (finIds l).map (fun i => (3, cbFaulty cfg i)) := by
+theorem proj_tail (cfg : Cfg) {l : List Ev} (h : ∀ e ∈ l, e.isCbOrReg .fin = true ∧ e.curOk = true) :
+    proj cfg l = (cbIds .fin l).map (fun i => (3, cbFaulty cfg i)) := by
   induction l with
   | nil => rfl
   | cons e rest ih =>
     have he := (h e List.mem_cons_self).1
     have := ih (fun x hx => h x (List.mem_cons_of_mem _ hx))
-    simp only [proj, finIds] at this ⊢
+    simp only [proj, cbIds] at this ⊢
     cases e with
     | cb k i c d =>
       cases k with
-      | resp => simp [Ev.isFinCb] at he
-      | fin => simp_all [obsOf, finId]
-    | _ => simp [Ev.isFinCb] at he
+      | resp => simp [Ev.isCbOrReg] at he
+      | fin =>
+        simp only [List.filterMap_cons, obsOf, cbId, ↓reduceIte, List.map_cons]
+        exact congrArg _ this
+    | reg k i => simp only [List.filterMap_cons, obsOf, cbId]; exact this
+    | _ => simp [Ev.isCbOrReg] at he
+
+theorem cbIds_length_le (k : CbKind) (l : List Ev) : (cbIds k l).length ≤ l.length := by
+  simp only [cbIds]; exact List.length_filterMap_le _ _
 
 /-- the response phase, from "a response left the chain", ends in "NewResponse sent" or "an observed event failed" -/
 theorem accepts_resp (cfg : Cfg) (ids : List Nat) :
@@ -156,13 +162,32 @@ theorem accepts_fin (cfg : Cfg) (ids : List Nat) (s : Nat) (hs : s = 12 ∨ s = 
           | exact ih 15 (by simp)
 
 /-- **The pipeline model's own log is accepted by the monitor of the generated skeleton**, for every request tree,
-schedule and entry stack, and finish_request is always reached. -/
-theorem pipeline_accepted (xv top : Bool) (r : Req) (self : Path) (stack0 : List Path) :
+schedule and entry stack (with fewer than `drainFuel` events, so that the model's callback loops ended by themselves),
+and finish_request is always reached. -/
+theorem pipeline_accepted (xv top : Bool) (r : Req) (self : Path) (stack0 : List Path)
+    (hfuel : (runReq xv top r self stack0).1.own.length < drainFuel) :
     ∃ q, accepts 0 (withFinish (proj r.cfg (runReq xv top r self stack0).1.own)) = some q ∧ 10 ≤ q := by
-  obtain ⟨pre, b, post, tail, heq, hpre, hresp, hpost, htail, hfin⟩ := (runReq_props xv top r self stack0).2
-  rw [heq]
-  have hsplit : proj r.cfg (pre ++ Ev.chain b :: (post ++ tail)) =
-      ((0, !b) :: (respTrace post).map (respObs r.cfg)) ++ (finIds tail).map (fun i => (3, cbFaulty r.cfg i)) := by
+  obtain ⟨pre, b, rp, np, tail, heq, hpre, hrp, hnp, hb, hresp, htail, hfin⟩ := (runReq_props xv top r self stack0).2.1
+  rw [heq] at hfuel ⊢
+  have hlen : ∀ (k : CbKind) (l : List Ev), l.length ≤ (pre ++ Ev.chain b :: (rp ++ np ++ tail)).length →
+      (cbIds k l).length < drainFuel := fun k l h => Nat.lt_of_le_of_lt (Nat.le_trans (cbIds_length_le k l) h) hfuel
+  have hpost : ∀ e ∈ rp ++ np, e.isFinCb = false ∧ e.isChain = false ∧ e.curOk = true := by
+    intro e he
+    rcases List.mem_append.mp he with h | h
+    · have := hrp e h
+      cases e with
+      | cb k i c d => cases k <;> simp_all [Ev.isCbOrReg, Ev.isFinCb, Ev.isChain]
+      | reg k i => simp_all [Ev.isFinCb, Ev.isChain]
+      | _ => simp [Ev.isCbOrReg] at this
+    · rcases hnp with h0 | ⟨d, regEvs, h0, hreg⟩
+      · subst h0; cases h
+      · subst h0
+        rcases List.mem_cons.mp h with h | h
+        · subst h; simp [Ev.isFinCb, Ev.isChain, Ev.curOk]
+        · have := hreg e h
+          cases e <;> simp_all [Ev.isReg, Ev.isFinCb, Ev.isChain, Ev.curOk]
+  have hsplit : proj r.cfg (pre ++ Ev.chain b :: (rp ++ np ++ tail)) =
+      ((0, !b) :: (respTrace (rp ++ np)).map (respObs r.cfg)) ++ (cbIds .fin tail).map (fun i => (3, cbFaulty r.cfg i)) := by
     have h1 := proj_stage r.cfg hpre
     have h2 := proj_post r.cfg hpost
     have h3 := proj_tail r.cfg htail
@@ -170,16 +195,19 @@ theorem pipeline_accepted (xv top : Bool) (r : Req) (self : Path) (stack0 : List
     rw [List.filterMap_append, h1, List.filterMap_cons_some (by rfl), List.filterMap_append, h2, h3]
     simp
   rw [hsplit, withFinish_append]
-  · rw [accepts_append, hresp, hfin]
+  · rw [accepts_append, hfin (hlen .fin tail (by simp; omega))]
     cases b with
     | false =>
-      simp only [Bool.false_eq_true, ↓reduceIte, List.map_nil, Bool.not_false, accepts, cbOrderStep,
-        bne_self_eq_false, Nat.reduceDiv, Nat.reduceMod, Nat.reduceBEq, Option.bind_some]
+      obtain ⟨h1, h2⟩ := hb rfl
+      subst h1; subst h2
+      simp only [List.append_nil, respTrace, List.filterMap_nil, List.map_nil, Bool.not_false, accepts, cbOrderStep,
+        bne_self_eq_false, Bool.false_eq_true, ↓reduceIte, Nat.reduceDiv, Nat.reduceMod, Nat.reduceBEq, Option.bind_some]
       exact accepts_fin r.cfg _ 14 (by simp)
     | true =>
-      simp only [↓reduceIte, Bool.not_true, accepts, cbOrderStep, bne_self_eq_false, Bool.false_eq_true,
+      rw [hresp rfl (hlen .resp rp (by simp; omega))]
+      simp only [Bool.not_true, accepts, cbOrderStep, bne_self_eq_false, Bool.false_eq_true, ↓reduceIte,
         Nat.reduceDiv, Nat.reduceMod, Nat.reduceBEq]
-      rcases accepts_resp r.cfg (regsOf .resp pre) with h | h
+      rcases accepts_resp r.cfg (regsOf .resp (pre ++ rp)) with h | h
       · rw [h]
         simp only [Option.bind_some, accepts, cbOrderStep, bne_self_eq_false, Bool.false_eq_true, ↓reduceIte,
           Nat.reduceDiv, Nat.reduceMod, Nat.reduceBEq, beq_self_eq_true]
